@@ -38,7 +38,7 @@ def runs(draw, tier):
                                                                   "metadata": st.sampled_from(["none", "dict", "dict", "callable"]), "only": st.sampled_from([False, False, True])}))),
          "logger": draw(st.one_of(st.none(), st.fixed_dictionaries({"period": st.integers(1, 4), "custom": st.booleans()}))),
          "second_run": draw(st.booleans()), "log": draw(st.booleans()), "stop_in_batch": draw(st.booleans()), "verbose": draw(st.booleans()),
-         "inspect_after_clear": draw(st.booleans()), "second_len": draw(st.sampled_from(["same", "fixed3", "same_range", "same_range"]))}
+         "inspect_after_clear": draw(st.booleans()), "third_run_no_clear": draw(st.booleans()), "second_len": draw(st.sampled_from(["same", "fixed3", "same_range", "same_range"]))}
     return c
 
 
@@ -272,6 +272,28 @@ def check(c):
                 c["stop_at"] = c2
             verify_metrics(ran2, rows_before)
             verify_obs(ran2, rows_before)
+            if c.get("third_run_no_clear") and ran2 and not saver:
+                # a further run over the SAME epoch numbers without clear_history(): the history simply grows (epoch numbers then repeat)
+                prev = {}
+                for p_, metrics, log, me in mes:
+                    prev[id(me)] = (list(me.epochs), {nm: list(me[nm]) for nm in metrics})
+                prev_oe = (list(oe.epochs), {o.name: list(oe[o.name].mean) for o in obs}) if oe is not None else None
+                ran3 = one_run(ran2[0], ran2[-1])
+                for p_, metrics, log, me in mes:
+                    S3 = [e for e in ran3 if e % p_ == 0]
+                    pe_, pv_ = prev[id(me)]
+                    require(list(me.epochs) == pe_ + S3 and len(me) == len(pe_) + len(S3), "metric:history-not-appended",
+                            f"a further run over epochs {ran3} without clear_history(): MetricEvaluator.epochs {list(me.epochs)} != earlier {pe_} + {S3}")
+                    for nm in metrics:
+                        require(list(me[nm]) == pv_[nm] + [record["metrics"][e][nm] for e in S3], "metric:history-not-appended",
+                                f"a further run without clear_history(): values of {nm!r} are not the earlier history followed by this run's evaluations")
+                if oe is not None:
+                    S3 = [e for e in ran3 if e % c["obs_period"] == 0]
+                    require(list(oe.epochs) == prev_oe[0] + S3, "observable:history-not-appended", f"a further run without clear_history(): ObservableEvaluator.epochs {list(oe.epochs)} != {prev_oe[0]} + {S3}")
+                    for o in obs:
+                        require(list(oe[o.name].mean) == prev_oe[1][o.name] + [record["stats"][e][o.name]["mean"] for e in S3], "observable:history-not-appended",
+                                f"a further run without clear_history(): means of {o.name} are not the earlier history followed by this run's evaluations")
+                labels.append("third_run_same_epochs_no_clear")
             for what_, obj, snap_ in kept:
                 require(obj == snap_, "records-kept-by-caller-changed", f"the {what_} record the caller kept from the first run was altered by clear_history() / the second run")
             labels.append("second_run")
